@@ -500,6 +500,10 @@ func evalContent(b *base, t tally, cs *syncCollisions, ctx sdk.Context, c conten
 		return nil
 	}
 	got, err := b.router.GetRoute(route)(ctx, c.content)
+	if b.lastOut != nil && !bytes.Equal(b.lastOut, b.lastCopy) {
+		t.Violate(cfg, path, "content-bytes-of-earlier-request-changed-by-later-request", fmt.Sprintf("content returned for %s was %s and reads %s after encoding %s: requests share a buffer", b.lastDesc, short(b.lastCopy), short(b.lastOut), input))
+	}
+	b.lastOut, b.lastCopy, b.lastDesc = got, append([]byte(nil), got...), input
 	payload, canon, ok := c.want(unix)
 	if !ok {
 		if err != nil {
